@@ -493,9 +493,10 @@ type session struct {
 }
 
 type gen struct {
-	w    *world
-	rng  *rand.Rand
-	sess [2]session
+	w       *world
+	rng     *rand.Rand
+	sess    [2]session
+	revisit int // directory whose contents were just removed wholesale, or -1
 }
 
 func (g *gen) name() string { return allNames[g.rng.Intn(len(allNames))] }
@@ -561,6 +562,13 @@ func (g *gen) children(depth int) []child {
 // next produces the next random call.
 func (g *gen) next() op {
 	w, r := g.w, g.rng
+	if g.revisit > 0 && r.Intn(2) == 0 {
+		// look again at a directory that was just emptied
+		d := g.revisit
+		g.revisit = 0
+		return []op{{Op: "lookup", D: d, N: g.name()}, {Op: "readdir", D: d, Page: 3, Sid: -1}, {Op: "listall", D: d}}[r.Intn(3)]
+	}
+	g.revisit = 0
 	for {
 		d := g.dir()
 		o := op{D: d, N: g.name()}
@@ -652,6 +660,7 @@ func (g *gen) next() op {
 			o.N = existing
 		case k < 82:
 			o.Op, o.A = "clear", r.Intn(4) == 0
+			g.revisit = d
 			if d == 0 && o.A && r.Intn(4) > 0 {
 				continue
 			}
